@@ -474,6 +474,36 @@ def inject_unknowns(items, ty, v, r, p=0.5):
     return ("struct", fs)
 
 
+def reaches(items, name, pred, seen=None):
+    """does the declared type `name` reach an item satisfying pred (itself, or through fields, containers, typedefs)?"""
+    seen = seen if seen is not None else set()
+    if name in seen:
+        return False
+    seen.add(name)
+    it = items[name]
+
+    def ty_reaches(ty):
+        if ty is None:
+            return False
+        k = ty[0]
+        if k in ("list", "set"):
+            return ty_reaches(ty[1])
+        if k == "map":
+            return ty_reaches(ty[1]) or ty_reaches(ty[2])
+        return k == "ref" and reaches(items, ty[1], pred, seen)
+    if pred(it):
+        return True
+    if it["kind"] == "typedef":
+        return ty_reaches(it["ty"])
+    if it["kind"] == "enum":
+        return False
+    return any(ty_reaches(f["ty"]) for f in it["fields"])
+
+
+def reaches_union(items, name):
+    return reaches(items, name, lambda it: it["kind"] == "union")
+
+
 def contains_type(items, ty, v, names):
     """does value v (of declared type ty) contain a struct value of one of the named types?"""
     k = ty[0]
@@ -586,6 +616,81 @@ def enc_bin(v):
     if k in ("list", "set"):
         return bytes([TT[v[1]]]) + len(v[2]).to_bytes(4, "big") + b"".join(enc_bin(x) for x in v[2])
     return bytes([TT[v[1]], TT[v[2]]]) + len(v[3]).to_bytes(4, "big") + b"".join(enc_bin(a) + enc_bin(b) for a, b in v[3])
+
+
+def enc_le(v):
+    """little-endian binary protocol encoding"""
+    k = v[0]
+    TT = {"bool": 2, "i8": 3, "double": 4, "i16": 6, "i32": 8, "i64": 10, "binary": 11, "struct": 12, "map": 13, "set": 14, "list": 15, "uuid": 16}
+    if k == "bool":
+        return bytes([1 if v[1] else 0])
+    if k in ("i8", "i16", "i32", "i64"):
+        w = int(k[1:]) // 8
+        return (v[1] % (1 << (8 * w))).to_bytes(w, "little")
+    if k == "dbl":
+        return v[1].to_bytes(8, "little")
+    if k == "bin":
+        return len(v[1]).to_bytes(4, "little") + v[1]
+    if k == "uuid":
+        return v[1]
+    if k == "struct":
+        return b"".join(bytes([TT[wire_tt(x)]]) + (i % 65536).to_bytes(2, "little") + enc_le(x) for i, x in v[1]) + b"\x00"
+    if k in ("list", "set"):
+        return bytes([TT[v[1]]]) + len(v[2]).to_bytes(4, "little") + b"".join(enc_le(x) for x in v[2])
+    return bytes([TT[v[1]], TT[v[2]]]) + len(v[3]).to_bytes(4, "little") + b"".join(enc_le(a) + enc_le(b) for a, b in v[3])
+
+
+def _varint(n):
+    out = bytearray()
+    while n >= 0x80:
+        out.append((n & 0x7F) | 0x80)
+        n >>= 7
+    out.append(n)
+    return bytes(out)
+
+
+def _zz(n, bits=64):
+    return ((n << 1) ^ (n >> (bits - 1))) & ((1 << bits) - 1)
+
+
+CT = {"bool": 1, "i8": 3, "i16": 4, "i32": 5, "i64": 6, "double": 7, "binary": 8, "list": 9, "set": 10, "map": 11, "struct": 12, "uuid": 13}
+
+
+def enc_cmp(v):
+    """compact protocol encoding (as Thrift/Compact.lean `enc`)"""
+    k = v[0]
+    if k == "bool":
+        return bytes([1 if v[1] else 2])
+    if k == "i8":
+        return bytes([v[1] % 256])
+    if k in ("i16", "i32", "i64"):
+        return _varint(_zz(v[1]))
+    if k == "dbl":
+        return v[1].to_bytes(8, "little")
+    if k == "bin":
+        return _varint(len(v[1])) + v[1]
+    if k == "uuid":
+        return v[1]
+    if k == "struct":
+        out, last = bytearray(), 0
+        for i, x in v[1]:
+            ct = (1 if x[1] else 2) if x[0] == "bool" else CT[wire_tt(x)]
+            d = i - last
+            out += bytes([d * 16 + ct]) if 0 < d < 15 else bytes([ct]) + _varint(_zz(i))
+            if x[0] != "bool":
+                out += enc_cmp(x)
+            last = i
+        return bytes(out) + b"\x00"
+    if k in ("list", "set"):
+        n = len(v[2])
+        hd = bytes([n * 16 + CT[v[1]]]) if n <= 14 else bytes([0xF0 + CT[v[1]]]) + _varint(n)
+        return hd + b"".join(enc_cmp(x) for x in v[2])
+    if not v[3]:
+        return b"\x00"
+    return _varint(len(v[3])) + bytes([CT[v[1]] * 16 + CT[v[2]]]) + b"".join(enc_cmp(a) + enc_cmp(b) for a, b in v[3])
+
+
+ENC = {"bin": enc_bin, "le": enc_le, "cmp": enc_cmp}
 
 
 def shown(v):
